@@ -302,7 +302,7 @@ def lemma_obligations(e: Engine) -> List[Obligation]:
             g = e.truthy(st, e.ev(ast.parse(lem["statement"].strip(), mode="eval").body, st))
         finally:
             e.spec_mode, e.pending_raises, e.guards, e.lambda_env = saved
-        o = Obligation(f"lemma/{lem['name']}", list(st.pc), g, {}, "", "lemma")
+        o = Obligation(f"lemma/{lem['name']}", list(e.axioms) + list(st.pc), g, {}, "", "lemma")
         out.append(o)
         # vacuity guard: the premise of an implication lemma must be satisfiable
         node = ast.parse(lem["statement"].strip(), mode="eval").body
@@ -313,5 +313,5 @@ def lemma_obligations(e: Engine) -> List[Obligation]:
                 prem = e.truthy(st, e.ev(node.args[0], st))
             finally:
                 e.spec_mode, e.pending_raises, e.guards, e.lambda_env = saved
-            out.append(Obligation(f"lemma/{lem['name']}/cover:premise", list(st.pc) + [prem], FALSE, {}, "", "cover", expect="sat"))
+            out.append(Obligation(f"lemma/{lem['name']}/cover:premise", list(e.axioms) + list(st.pc) + [prem], FALSE, {}, "", "cover", expect="sat"))
     return out
